@@ -35,7 +35,7 @@ func hDispatcher14(route *Route) *Dispatcher {
 // enforced at the synchronisation points involved.
 //
 //vf:quick unwind=12 decisions=300 paths=200000 preempt=1 goroutines=8
-//vf:thorough unwind=12 decisions=400 paths=2000000 preempt=2 goroutines=10
+//vf:thorough unwind=12 decisions=400 paths=4000000 preempt=1 goroutines=10
 //vf:expect reach=quiescent
 //vf:note the real worker goroutines run natively as well, with the engine's schedule enforced by the sequencer
 func VerifC14_Order() {
